@@ -1,7 +1,7 @@
 /-
   C11 — create_dir_all / remove_dir_all / copy_file / move_file / copy_dir / move_dir.
 
-  "create_dir_all leaves exactly the requested chain of directories; remove_dir_all removes
+  "create_dir_all leaves exactly the requested ancChain of directories; remove_dir_all removes
   exactly the subtree and succeeds on an absent path; copy_file/copy_dir produce a byte-identical,
   structure-identical copy (copy_dir returning the number of entries copied) and leave the source
   untouched; move_file/move_dir do the same and leave no trace of the source. The results are
@@ -20,15 +20,15 @@
       (a) `dirPrefixes_chain` (+ recursive form `dirPrefixes_step`): the prefixes visited are exactly
           `/c1`, `/c1/c2`, …, the path itself;
       (b) `createDirAll_exact`: if no prefix is a file, the call succeeds and the new map is the
-          old one plus exactly the chain (`ChainMade`: every prefix a directory, the missing ones
-          fresh directories, every old entry unchanged, no key outside the chain touched, WF kept);
+          old one plus exactly the ancChain (`ChainMade`: every prefix a directory, the missing ones
+          fresh directories, every old entry unchanged, no key outside the ancChain touched, WF kept);
       (c) `createDirAll_file_prefix`: if a prefix is a file the result is
           `FileExists(some that prefix)` and the WORLD IS UNCHANGED. On a well-formed map the
           shorter prefixes necessarily exist (they are ancestors of a present path), so nothing is
           created; `createDirAll_file_prefix_general` is the statement without well-formedness
           (the shorter prefixes HAVE been created: the loop is not atomic), and
           `not_atomic_without_wf` is a concrete ill-formed map on which a directory is left behind.
-      `createDirAll_existing`: if the whole chain exists, success and the world is unchanged.
+      `createDirAll_existing`: if the whole ancChain exists, success and the world is unchanged.
    3. `removeDirAll_absent` — ARBITRARY filesystem: an absent path ⇒ Ok, world unchanged.
       `removeDirAll_exact` — memory leaf, WF map with unique keys, `p ≠ ""` a directory, fuel
       larger than the length difference to the longest key: Ok, and the new map is the old one
@@ -83,7 +83,7 @@ theorem existing_destination_refused (src dst : VPath) (fuel : Nat) (w : World)
 
 /-! ## 2. create_dir_all -/
 
-/-- (a) the prefixes visited are exactly the ancestor chain and the path itself -/
+/-- (a) the prefixes visited are exactly the ancestor ancChain and the path itself -/
 theorem dirPrefixes_chain (cs : List Str) (h : ∀ c ∈ cs, GoodComp c) :
     VPath.dirPrefixes (renderC cs) =
       (List.range cs.length).map (fun k => renderC (cs.take (k + 1))) :=
@@ -98,7 +98,7 @@ theorem dirPrefixes_step (cs : List Str) (c : Str) (hc : '/' ∉ c) :
 theorem dirPrefixes_root : VPath.dirPrefixes (renderC []) = [] := by decide
 
 /-- (b) no prefix is a file: success, and the map afterwards is the old map plus exactly the
-chain of directories -/
+ancChain of directories -/
 theorem createDirAll_exact {w : World} {i : Nat} {m : FMap} (h : MemLeafAt w i m) (hwf : WF m)
     (id : Nat) (cs : List Str) (hg : ∀ c ∈ cs, GoodComp c)
     (hnf : ∀ k, k < cs.length → ∀ e, m.find? (renderC (cs.take (k + 1))) = some e → e.ftype = .dir) :
@@ -106,9 +106,9 @@ theorem createDirAll_exact {w : World} {i : Nat} {m : FMap} (h : MemLeafAt w i m
         (.ok (), w.setLeafFiles i m') ∧ ChainMade m m' cs := by
   have hsl : ∀ c ∈ cs, '/' ∉ c := fun c hc => (hg c hc).2.1
   obtain ⟨hok, hmade⟩ := createDirAllLoop_chain m hwf cs hsl (fun q hq e he => by
-    obtain ⟨k, hk, rfl⟩ := (mem_chain cs q).1 hq
+    obtain ⟨k, hk, rfl⟩ := (mem_ancChain cs q).1 hq
     exact hnf k hk e he)
-  refine ⟨(Mem.createDirAllLoop m (chain cs)).2, ?_, hmade⟩
+  refine ⟨(Mem.createDirAllLoop m (ancChain cs)).2, ?_, hmade⟩
   rw [run_pCreateDirAll h]
   unfold Mem.pCreateDirAll
   by_cases hp : renderC cs = []
@@ -125,7 +125,7 @@ theorem createDirAll_exact {w : World} {i : Nat} {m : FMap} (h : MemLeafAt w i m
 theorem createDirAll_exact_prefix_is_dir {m m' : FMap} {cs : List Str} (h : ChainMade m m' cs)
     (k : Nat) (hk : k < cs.length) :
     ∃ e, m'.find? (renderC (cs.take (k + 1))) = some e ∧ e.ftype = .dir :=
-  h.dirs _ ((mem_chain cs _).2 ⟨k, hk, rfl⟩)
+  h.dirs _ ((mem_ancChain cs _).2 ⟨k, hk, rfl⟩)
 
 /-- (c) a prefix is a file, well-formed map: `FileExists(that prefix)`, the world is unchanged -/
 theorem createDirAll_file_prefix {w : World} {i : Nat} {m : FMap} (h : MemLeafAt w i m) (hwf : WF m)
@@ -150,7 +150,7 @@ the file found by (c) is the FIRST prefix that is not a directory -/
 theorem shorter_prefixes_are_dirs {m : FMap} (hwf : WF m) (a : List Str) (c : Str) (e : Entry)
     (hq : m.find? (renderC (a ++ [c])) = some e) (k : Nat) (hk : k < a.length) :
     ∃ e', m.find? (renderC (a.take (k + 1))) = some e' ∧ e'.ftype = .dir :=
-  (hwf.chain_dirs a c e hq _ ((mem_chain a _).2 ⟨k, hk, rfl⟩)).2
+  (hwf.chain_dirs a c e hq _ ((mem_ancChain a _).2 ⟨k, hk, rfl⟩)).2
 
 /-- (c) without well-formedness: the error names the first file prefix, and the directories
 before it HAVE been created (`ChainMade … a`): create_dir_all is not atomic -/
@@ -167,7 +167,7 @@ theorem createDirAll_file_prefix_general {w : World} {i : Nat} {m : FMap} (h : M
       · exact Or.inl hx
       · exact Or.inr (Or.inl hx)))
     (fun q hq e' he' => by
-      obtain ⟨k, hk, rfl⟩ := (mem_chain a q).1 hq
+      obtain ⟨k, hk, rfl⟩ := (mem_ancChain a q).1 hq
       exact hbefore k hk e' he') hfile hft
   refine ⟨_, ?_, hmade⟩
   rw [run_pCreateDirAll h]
@@ -175,7 +175,7 @@ theorem createDirAll_file_prefix_general {w : World} {i : Nat} {m : FMap} (h : M
   have hp : renderC (a ++ c :: b) ≠ [] := by simp
   simp only [hp, ↓reduceIte, dirPrefixes_renderC _ hsl, hrun]
 
-/-- the whole chain exists already: success, nothing changes (create_dir_all is idempotent) -/
+/-- the whole ancChain exists already: success, nothing changes (create_dir_all is idempotent) -/
 theorem createDirAll_existing {w : World} {i : Nat} {m : FMap} (h : MemLeafAt w i m) (hwf : WF m)
     (id : Nat) (cs : List Str) (hg : ∀ c ∈ cs, GoodComp c)
     (hall : ∀ k, k < cs.length → ∃ e, m.find? (renderC (cs.take (k + 1))) = some e ∧ e.ftype = .dir) :
@@ -186,8 +186,8 @@ theorem createDirAll_existing {w : World} {i : Nat} {m : FMap} (h : MemLeafAt w 
   by_cases hp : renderC cs = []
   · simp [hp, h.same]
   · simp only [hp, ↓reduceIte, dirPrefixes_renderC cs hsl]
-    rw [createDirAllLoop_existing m hwf (chain cs) (fun d hd => by
-      obtain ⟨k, hk, rfl⟩ := (mem_chain cs d).1 hd
+    rw [createDirAllLoop_existing m hwf (ancChain cs) (fun d hd => by
+      obtain ⟨k, hk, rfl⟩ := (mem_ancChain cs d).1 hd
       refine ⟨?_, hall k hk⟩
       cases hc : cs.take (k + 1) with
       | nil =>
